@@ -126,7 +126,7 @@ func twAdjacentOracle(r *Run, caseLine string, ops []twOp, out []byte) {
 		switch ops[i].kind {
 		case 'R':
 			flag = true
-		case 'w':
+		case 'w', 'v':
 			flag = false
 		}
 	}
@@ -161,6 +161,45 @@ func twLastWriteOracle(r *Run, caseLine string, ops []twOp, out []byte) {
 		if !bytes.Equal(want, out) {
 			r.Violate("C13", clause, caseLine, fmt.Sprintf("out=%q but %s => %q, then %q, then %s => %q", out,
 				showTwOps(ops[:i+1]), realOut(ops[:i+1]), mid, showTwOps(ops[j+2:]), realOut(ops[j+2:])))
+		}
+	}
+}
+
+// twVerbatimOracle: trimWriter.WriteVerbatim (objects, raw bodies, what a tag writes; repair verbatim-output-not-trimmed)
+// on the REAL trim writer, for every operation list and ALL byte strings:
+//   - it is the empty Write, the Write of b and a Flush: replacing the operation by these three gives the same underlying
+//     calls, call by call (this is how the model expresses it: verbatimOps);
+//   - the bytes written verbatim reach the writer unchanged whatever trims precede or follow: the output is what the
+//     operations before it write (with a final flush), then b, then what the operations after it write on their own.
+func twVerbatimOracle(r *Run, caseLine string, ops []twOp, calls [][]byte) {
+	sameCalls := func(a, b [][]byte) bool {
+		if len(a) != len(b) {
+			return false
+		}
+		for i := range a {
+			if !bytes.Equal(a[i], b[i]) {
+				return false
+			}
+		}
+		return true
+	}
+	out := bytes.Join(calls, nil)
+	for i, o := range ops {
+		if o.kind != 'v' {
+			continue
+		}
+		r.Count("verbatim=checked")
+		alt := append(append(append([]twOp(nil), ops[:i]...), twOp{kind: 'w'}, twOp{kind: 'w', b: o.b}, twOp{kind: 'F'}), ops[i+1:]...)
+		if got := runRealTW(alt); !sameCalls(got, calls) {
+			r.Violate("C13", "writeVerbatim-is-emptyWrite-write-flush", caseLine, fmt.Sprintf("calls %q but %s => %q", calls, showTwOps(alt), got))
+			return
+		}
+		// the operations before run with the flag they had; a pending right trim is dropped by the verbatim write, so
+		// the prefix alone (plus the final flush) writes exactly what it wrote before the verbatim write
+		want := append(append(append([]byte(nil), bytes.Join(runRealTW(ops[:i]), nil)...), o.b...), bytes.Join(runRealTW(ops[i+1:]), nil)...)
+		if !bytes.Equal(want, out) {
+			r.Violate("C05", "verbatim-bytes-unchanged-between-trims", caseLine, fmt.Sprintf("out=%q want %q", out, want))
+			return
 		}
 	}
 }
